@@ -121,7 +121,7 @@ def run(rep, mm, rc, lib_rs_path):
         props = mm.flat_props(name)
         lines.append("%s\t%s" % (name, json.dumps({"\u0001verif": 0})))
         plan.append((name, "unknown-key", None))
-        tree = TGen(mm, rng_for(common.seed(), "C07serde", name), maxdepth=2, p_opt=1.0, custom_enum_p=0.0).gen(ref(name))
+        tree = TGen(mm, rng_for(common.seed(), "C07serde", name), maxdepth=2, p_opt=1.0, custom_enum_p=0.0, open_extras=False).gen(ref(name))
         j = to_json(tree)
         lines.append("%s\t%s" % (name, json.dumps(j)))
         plan.append((name, "maximal", j))
